@@ -2,6 +2,7 @@
 C05 — property theorems.  (Helper lemmas live in `Lemmas.lean`.)
 -/
 import LimnoriaModel.C05.Lemmas
+import LimnoriaModel.C05.RoundTrip
 namespace C05
 open Py
 
@@ -46,5 +47,37 @@ theorem format_cached (timeOk : Str → Bool) (l : Str) (m : Msg) (str : Str)
   rcases parse_total timeOk l with ⟨m', h'⟩ | h'
   · rw [h'] at h; injection h with _ h2; exact h2.symm
   · rw [h'] at h; cases h
+
+/-- The second family of facts about the extracted escape table: escaped values never contain the
+tag separators. -/
+theorem tagEscape_table_sep : TableSep Gen.serverTagEscape := by decide
+
+/-- **Round trip.**  Serialising any message built from a prefix, command, arguments and tags that
+satisfies the explicit well-formedness predicate `WF` and parsing the resulting line yields a
+message with the same prefix, command, arguments and tags (an empty tag value being the same as
+no value, the IRCv3 rule the code cites), and the cached string is the serialised line. -/
+theorem parse_format (timeOk : Str → Bool) (m : Msg) (h : WF timeOk m) :
+    parse timeOk (format m) = .ok (canon m) (format m) :=
+  parse_format_of_tables timeOk m tagEscape_table_ok tagEscape_table_sep h
+
+/-- non-vacuity: a concrete message with prefix, middle and trailing arguments, an escaped tag value
+and an empty one meets `WF`; and the theorem's conclusion evaluates as stated on it. -/
+example : WF (fun _ => true)
+    ⟨"nick!u@h".toList, "PRIVMSG".toList, ["#chan".toList, ":hello  world: ".toList],
+     [("a".toList, some "x; y\\".toList), ("b".toList, some []), ("c".toList, none)]⟩ := by
+  refine ⟨by decide, by decide, by decide, by decide, by decide, by decide, by decide, ?_, ?_, by decide, ?_, ?_⟩
+  · intro a ha
+    simp at ha
+    subst ha
+    decide
+  · intro a ha
+    simp at ha
+    subst ha
+    decide
+  · intro kv hkv
+    simp at hkv
+    rcases hkv with rfl | rfl | rfl <;> decide
+  · intro v hv
+    simp [dictGet, timeKey] at hv
 
 end C05
